@@ -32,6 +32,7 @@ const (
 	sigF8        = "F8-same-key-version-precedence-flips-after-l0-sort"
 	sigF23       = "F23-gc-writeback-resurrects-key-deleted-before-rewrite"
 	sigF26       = "F26-gc-writeback-above-newer-tombstone-resurrects-after-rewrite-ends"
+	sigF27       = "F27-gc-writeback-overwrites-same-version-rewrite"
 	sigDangling  = "c15-read-returns-dangling-pointer"
 	sigRef       = "c15-read-differs-from-committed-history"
 	sigChanged   = "c15-read-changed-by-gc"
@@ -74,6 +75,7 @@ type gcHist struct {
 	clamp   uint64 // gcDiscardTs of the rewrite in flight
 	inGC    bool
 	compactInGC bool
+	sameTs      bool // managed: commits may reuse the previous commit timestamp
 	wroteBack   map[string]uint64 // key@version written back by a rewrite -> that rewrite's gcDiscardTs
 }
 
@@ -480,6 +482,24 @@ func (g *gcHist) checkSnap(before, after readSnap, phase string) {
 			first = fmt.Sprintf("%s: %q -> %q", k, before[k], a)
 		}
 		ok = false
+		if strings.HasPrefix(before[k], "v") && strings.HasPrefix(a, "v") && phase == "write-back" {
+			// same version, other value: was this key@version written twice (managed mode)?
+			var ts, v1, v2 uint64
+			var kx string
+			fmt.Sscanf(k, "%d|get|%s", &ts, &kx)
+			fmt.Sscanf(before[k], "v%d", &v1)
+			fmt.Sscanf(a, "v%d", &v2)
+			n := 0
+			for _, w := range g.ref {
+				if fmt.Sprintf("%x", w.Key) == kx && w.Ver == v1 {
+					n++
+				}
+			}
+			if _, wb := g.wroteBack[fmt.Sprintf("%s@%d", kx, v1)]; v1 == v2 && n >= 2 && wb {
+				sig = sigF27
+			}
+			break
+		}
 		if before[k] == "-" && strings.HasPrefix(a, "v") {
 			// a key that was not visible became visible: classify by the newest reference write
 			var ts uint64
@@ -726,7 +746,13 @@ func (g *gcHist) commitT(t int) {
 	g.releaseTxn(t)
 	at := uint64(0)
 	if g.o.Managed {
-		g.mts++
+		// managed mode: now and then the SAME timestamp again (a key@version written twice:
+		// the scan's 'newer file' / 'larger offset' / 'value now inline' branches)
+		// (not inside a rewrite: a re-write between scan and write-back is finding F27,
+		// exercised by its witness only)
+		if !(g.sameTs && !g.inGC && g.c.Rng.Intn(6) == 0) {
+			g.mts++
+		}
 		at = g.mts
 	}
 	// the records of one transaction go to one value-log file, in the (random) order in which
@@ -779,6 +805,9 @@ func (g *gcHist) randWrite() {
 				exp = 1 << 40
 			}
 			g.modify(t, k, g.bigVal(), 0, 0, exp)
+		case r < 5: // exactly at / one below the value threshold
+			v := g.bigVal()[:31+g.c.Rng.Intn(2)]
+			g.modify(t, k, v, 0, byte(g.c.Rng.Intn(3)), 0)
 		default:
 			g.modify(t, k, g.bigVal(), 0, byte(g.c.Rng.Intn(3)), 0)
 		}
@@ -991,6 +1020,7 @@ func runGcHistory(c *Ctx, i int) (*gcHist, error) {
 	}
 	defer g.closeAll()
 	g.keys = keySetA[:3+c.Rng.Intn(4)]
+	g.sameTs = o.Managed && i%8 == 7
 	nOps := 25 + c.Rng.Intn(35)
 	for step := 0; step < nOps && !g.stop; step++ {
 		if c.Rng.Intn(100) < 14 {
